@@ -98,7 +98,9 @@ class ExcelArrayOps(object):
         self.arr = arr
 
     def adapt_value(self, value):
-        if isinstance(value, list) and len(value) == 1:
+        while isinstance(value, list) and len(value) == 1 and len(self.arr) != 1:
+            # a one-item array (a one-cell range [[v]]) acts as its item - but two one-row
+            # ranges [[a,b,c]] and [[d,e,f]] pair row with row
             value = value[0]
         if not isinstance(value, list):
             value = [value for i in range(len(self.arr))]
@@ -369,7 +371,7 @@ def text_of(value):
     if value is None:
         # a blank operand joins as nothing
         return ''
-    if isinstance(value, float) and value.is_integer() and abs(value) < 1e15:
+    if isinstance(value, float) and value.is_integer() and abs(value) <= 2**53:
         # a whole number joins as its digits however it was computed: (10/2)&" items" is "5 items"
         return str(int(value))
     return str(value)
@@ -380,7 +382,7 @@ def evaluate_arithmetic(op, lval, rval):
         return lval
     if isinstance(rval, error.XLError):
         return rval
-    if isinstance(lval, list) and len(lval) == 1 and isinstance(rval, list) and len(rval) > 1:
+    while isinstance(lval, list) and len(lval) == 1 and isinstance(rval, list) and len(rval) > 1:
         # a one-item array acts as its item on the right ({1;2}+{1}): on the left as well
         lval = lval[0]
     if isinstance(lval, list):
